@@ -187,6 +187,34 @@ theorem PyBand_rolling_init (r c w : Nat) (i1 : Int) (e : Env) (hw : 1 ≤ w) (h
     distance_sub_1, distance_sub_2, he1]
   rcases h1 with h | h <;> subst h <;> simp <;> omega
 
+/-! ### `dp.dp`, the routine behind `needleman_wunsch` -/
+
+/-- the environment of `dp(s1, s2)` called without a window, in row `i0` -/
+def dpEnv (r c i0 : Nat) : Env :=
+  let e0 : Env := { r := r, c := c, i0 := i0, window_is_none := 1 }
+  { e0 with window := if dp_window_0_cond e0 then dp_window_0 e0 else e0.window }
+
+/-- without a window every row of the score matrix is filled over all columns `0 … c-1` -/
+theorem PyBand_dp_full_rows (r c i0 : Nat) (hi : i0 < r) :
+    dp_cols_lo (dpEnv r c i0) = 0 ∧ dp_cols_hi (dpEnv r c i0) = c := by
+  simp only [dpEnv, dp_cols_lo, dp_cols_hi, dp_window_0, dp_window_0_cond]
+  constructor <;> simp <;> omega
+
+/-- … and the value is read from the last column `c` of the last row — also when a sequence is empty: for
+`r = c = 0` the index is `-1`, which Python wraps to the only column of that row (`-1 mod 1 = 0`) -/
+theorem PyBand_dp_readout (r c : Nat) :
+    -((c : Int) + 1) ≤ dp_readout_col (dpEnv r c 0) ∧ dp_readout_col (dpEnv r c 0) % ((c : Int) + 1) = c := by
+  by_cases h : r = 0 ∧ c = 0
+  · obtain ⟨hr, hc⟩ := h
+    subst hr; subst hc
+    decide
+  · have hcol : dp_readout_col (dpEnv r c 0) = c := by
+      simp only [dpEnv, dp_readout_col, dp_window_0, dp_window_0_cond]
+      simp
+      omega
+    rw [hcol]
+    exact ⟨by omega, Int.emod_eq_of_lt (by omega) (by omega)⟩
+
 /-- the translated items are exactly the ones the theorems above speak about (a new assignment to a band
 variable, a new subscript or a new loop in the source must be looked at) -/
 theorem PyBand_items_pinned :
@@ -195,7 +223,7 @@ theorem PyBand_items_pinned :
        "distance_j_start_1", "distance_skip_2", "distance_ic_0", "warping_paths_j_start_0", "warping_paths_j_end_0",
        "warping_paths_j_start_1", "warping_paths_affinity_j_start_0", "warping_paths_affinity_j_start_1",
        "warping_paths_affinity_j_end_0", "lb_keogh_imin_diff_0", "lb_keogh_imax_diff_0", "lb_keogh_imin_0",
-       "lb_keogh_imax_0"] ∧
+       "lb_keogh_imax_0", "dp_window_0", "dp_cols", "dp_readout_col"] ∧
     Gen.PyBand.distanceSubscripts.length = 13 ∧ Gen.PyBand.distanceLoops.length = 4 := by decide
 
 /- non-vacuity: a concrete row of a concrete pair satisfies the hypotheses of the inner-loop theorem -/
